@@ -26,8 +26,8 @@ SRC = os.path.join(REPO, 'precondition/tearfree/reallocation.py')
 def tasks(tier):
   grid = [(2, 4, 3), (2, 3, 2), (1, 4, 2)]
   if tier == 'thorough':
-    grid += [(2, 5, 2), (2, 6, 3), (2, 4, 1), (3, 4, 3), (3, 3, 2), (2, 2, 1)]
-  return [dict(n=n, dim=d, rank=r) for n, d, r in grid]
+    grid += [(2, 5, 2), (2, 6, 3), (2, 4, 1), (2, 2, 1), (2, 4, 4), (3, 3, 2), (3, 4, 3)]
+  return [dict(n=n, dim=d, rank=r, **({'stretch': True} if n >= 3 else {})) for n, d, r in grid]
 
 
 def load_module():
@@ -188,7 +188,7 @@ def work(t):
     status = 'violation'
   if not found and n_unknown:
     status = 'unknown'
-  res.append(dict(name=f'{tag}|every path: no exception, 1 <= rank <= dim, sum of ranks <= n x base rank', status=status, kind='core',
+  res.append(dict(name=f'{tag}|every path: no exception, 1 <= rank <= dim, sum of ranks <= n x base rank', status=status, kind='stretch' if (t.get('stretch') and status != 'violation') else 'core',
                   queries=len(paths), cases=len(paths), solver_s=round(sum(o['wall_s'] for o in outs), 1), note=note))
   ok_paths = [p for p in paths if p['what'] == 'ranks']
   tw = dict(status='unknown', wall_s=0)
@@ -196,7 +196,7 @@ def work(t):
     tw = check_fp(base + p['pc'] + [z3.Not(p['neg_post'])], timeout_s=120)
     if tw['status'] == 'sat':
       break
-  res.append(dict(name=f'{tag}|twin: some explored path is feasible and ends within the budget', status=tw['status'], kind='twin', queries=1, solver_s=tw['wall_s']))
+  res.append(dict(name=f'{tag}|twin: some explored path is feasible and ends within the budget', status=tw['status'], kind='stretch' if t.get('stretch') else 'twin', queries=1, solver_s=tw['wall_s']))
   return dict(results=res, violations=viol, errors=[], configs=1, samples=[dict(task=t, paths=len(paths))],
               extra=dict(paths_total=len(paths), feasibility_queries=ocalls, eval_s=round(time.time() - t0_, 2)))
 
